@@ -2,6 +2,7 @@ package gvc
 
 import (
 	"fmt"
+	"regexp"
 	"go/ast"
 	"os"
 	"go/token"
@@ -326,6 +327,7 @@ func (vc *VC) instr(st *State, fr *Frame, in ssa.Instruction, k func(*State, *Fr
 		}
 		sv := vc.val(st, fr, x.Val)
 		vc.storeAt(st, p, x.Val.Type(), sv)
+		st.escape(sv)
 		if al, ok := x.Addr.(*ssa.Alloc); ok && singleAssign(al) {
 			// a captured variable that is assigned exactly once keeps its
 			// value across calls (nobody else can write the cell)
@@ -378,7 +380,9 @@ func (vc *VC) instr(st *State, fr *Frame, in ssa.Instruction, k func(*State, *Fr
 		fn := x.Fn.(*ssa.Function)
 		ci := &closureInfo{fn: fn}
 		for _, b := range x.Bindings {
-			ci.bindings = append(ci.bindings, vc.val(st, fr, b))
+			bv := vc.val(st, fr, b)
+			ci.bindings = append(ci.bindings, bv)
+			st.escape(bv)
 		}
 		a := vc.alloc(st, "clo")
 		fr.vals[x] = a
@@ -405,6 +409,7 @@ func (vc *VC) alloc(st *State, prefix string) T {
 	vc.assume(st, and(app(">", a.S, st.mark), eq(app("root", a.S), a.S), eq(app("atag", a.S), "0")))
 	st.mark = a.S
 	st.known["nonnil:"+a.S] = "1"
+	st.allocs = append(st.allocs, a.S)
 	return a
 }
 
@@ -1065,6 +1070,8 @@ func (vc *VC) mapUpdate(st *State, fr *Frame, x *ssa.MapUpdate) {
 	m := vc.val(st, fr, x.Map)
 	k := vc.val(st, fr, x.Key)
 	v := vc.val(st, fr, x.Value)
+	st.escape(k)
+	st.escape(v)
 	vc.check(st, vc.nonnil(st, m.S), "mapnil", vc.siteName(x, "mapupdate"))
 	mk := vc.mapInfo(x.Map.Type())
 	hasArr := vc.hload(st, mk.has, vc.heapSort[mk.has], m.S).S
@@ -1245,4 +1252,23 @@ func singleAssign(al *ssa.Alloc) bool {
 	r := okAll && n == 1
 	singleAssignMemo[al] = r
 	return r
+}
+
+var allocTok = regexp.MustCompile(`(?:a|arr|map|clo)![0-9]+`)
+
+// escape marks every allocation constant occurring in the term as
+// possibly known to code outside the current function.
+func (st *State) escape(v T) {
+	if st.escaped == nil {
+		st.escaped = map[string]bool{}
+	}
+	mark := func(s string) {
+		for _, m := range allocTok.FindAllString(s, -1) {
+			st.escaped[m] = true
+		}
+	}
+	mark(v.S)
+	for _, t := range v.Tup {
+		mark(t.S)
+	}
 }
